@@ -421,13 +421,6 @@ def reference(case):
     version = segs[-1] if len(segs) > 1 and re.fullmatch(r"v[0-9]+(p[0-9]+)?((alpha|beta)[0-9]*)?", segs[-1]) else ""
     rest = segs[:-1] if version else segs
     ns, name = rest[:-1], rest[-1]
-    for p in case["params"]:
-        for text, kind, val in E2E_OVERRIDES:
-            if p.strip() == text:
-                if kind == "name":
-                    name = val
-                else:
-                    ns = list(val) if not any(q.strip().startswith("python-gapic-namespace") and q is not p for q in case["params"]) else ns
     nsov = [val for p in case["params"] for text, kind, val in E2E_OVERRIDES if p.strip() == text and kind == "namespace"]
     if nsov:
         ns = [x for v in nsov for x in v]
@@ -565,7 +558,6 @@ def run_e2e(ctx, cases, tag="c11e2e"):
             ctx.features["e2e-unreferenced"] += 1
             continue
         files, tg = model_inputs(c)
-        param = ",".join(p for p in c["params"] if p) if False else ",".join(c["params"])
         unknown = [p for p in c["params"] if is_unknown(p)]
         feats = ["e2e", f"e2e ns={len(ref['root'].split('/')) - 1}", "e2e versioned" if ref["versioned"] else "e2e unversioned",
                  f"e2e targets={len(ref['types'])}", f"e2e services={len(ref['services'])}"]
